@@ -298,7 +298,7 @@ def run(ck, F, tier):
     ck.floor("T4", "matrix writes in Code::h", len(found["info"]) + len(found["parity"]), 3)
 
     # ---- T5: staircase agreement -----------------------------------------------
-    acc = staircase.accepted_set(F)
+    acc = staircase.accepted_set(F, ck, "T5")
     # writer in terms of D = (cols - rows) = n - m = k: offsets (col - k) per row
     written_first = {num(d) for d in cover if any(iv[0] == num(0) for iv in cover[d])}
     written_rest = {var("j") + num(d) for d in cover if any(iv[1] == M for iv in cover[d])}
